@@ -38,9 +38,18 @@ def job_list(pid, tier, seed):
     return jobs
 
 
+# wall-clock budget of the exploration part of one check: when a (changed) contract makes operations crawl, the
+# histories not yet started are skipped and counted in the evidence, so that the check still answers in minutes
+DEADLINE = [None]
+BUDGET_S = {"quick": int(os.environ.get("LP_QUICK_BUDGET", "420")), "thorough": int(os.environ.get("LP_THOROUGH_BUDGET", "5400"))}
+
+
 def run_job(job):
     prof, variant, seed, opts = job
     t0 = time.time()
+    if DEADLINE[0] is not None and t0 > DEADLINE[0]:
+        return dict(job=(prof, variant, seed), ops=0, disagreements=[], violations={}, chunk_mismatch=[],
+                    cov={}, error=None, sample=None, nontrivial=None, skipped=True)
     pair = proc.Pair()
     res = dict(job=(prof, variant, seed), ops=0, disagreements=[], violations={}, chunk_mismatch=[],
                cov={}, error=None, sample=None, nontrivial=None)
@@ -141,6 +150,7 @@ def check(pid, tier, seed):
     # 2. correspondence + monitors
     jobs = job_list(pid, tier, seed)
     corpus = corpus_jobs()
+    DEADLINE[0] = time.time() + BUDGET_S.get(tier, 420)
     with multiprocessing.Pool(min(16, max(1, len(jobs)))) as pool:
         results = pool.map(run_job, jobs, chunksize=1)
     results = run_corpus(corpus) + results
@@ -164,6 +174,9 @@ def check(pid, tier, seed):
                 chunk_bad.append((r, c))
     errors = [r["error"] for r in results if r["error"]]
     errors += [e for r in results for e in r.get("monitor_errors", {}).get(pid, [])]
+    n_skipped = sum(1 for r in results if r.get("skipped"))
+    if n_skipped:
+        notes.append(f"{n_skipped} of {len(results)} histories were not run: the exploration budget of {BUDGET_S.get(tier)} s was used up")
 
     known = load_known()
 
@@ -383,6 +396,7 @@ def check_all(tier, seed, scale=1.0):
                 opts = {"exhaustive_upto": 4, "random_scheds": 4}
             jobs.append((prof, v, seed * 1000003 + n, opts))
             n += 1
+    DEADLINE[0] = time.time() + BUDGET_S.get(tier, 420)
     with multiprocessing.Pool(16) as pool:
         results = pool.map(run_job, jobs, chunksize=1)
     results = run_corpus(corpus_jobs()) + results
